@@ -45,3 +45,17 @@ package authboss
 //@       bound(result, "reqs") == ite(forceFullAuth, 1, 0) + ite(force2fa, 2, 0) &&
 //@       bound(result, "failResponse") == ite(redirectToLogin, RespondRedirect, RespondNotFound) &&
 //@       bound(result, "mountPathed") == mountPathed && bound(result, "ab") == ab
+//@
+//@ func (*Authboss).UpdatePassword
+//@   property C06 C18
+//@   -- the stored password is the hasher's output for the new password; remember tokens of
+//@   -- that account are revoked after (and only after) the save succeeded
+//@   ensures[C06] hash_then_save: each Store.Save(?s) -> _ => s == user &&
+//@       (before Hash.Generate(?pw) -> (?h, ?he) :: he == nil && pw == newPassword && Password(s) == h)
+//@   ensures[C06] tokens_deleted: each Store.DelRememberTokens(?p) -> _ => p == PID(user) && (before Store.Save(_) -> ?e :: e == nil)
+//@   ensures[C06] tokens_deleted_when_supported: (result == nil && implements(a.Config.Storage.Server, "authboss.RememberingServerStorer")) ==>
+//@       emits Store.DelRememberTokens(_) -> ?e :: e == nil
+//@   ensures[C06] only_password: each Store.Save(?s) -> _ => PID(s) == old(PID(s)) && Email(s) == old(Email(s))
+//@   ensures[C18] hash_error_outcome: each Hash.Generate(_) -> (_, ?e) => e != nil ==> (result == e && !emits Store.Save(_))
+//@   ensures[C18] save_error_outcome: each Store.Save(_) -> ?e => e != nil ==> (result == e && !emits Store.DelRememberTokens(_))
+//@   ensures[C18] no_panic: !panics
